@@ -81,48 +81,62 @@ RRemoveObsolete ==
   /\ walEnts' = [w \in {x \in DOMAIN walEnts : <<"wal", x>> \in disk'} |-> walEnts[w]]
   /\ UNCHANGED <<man, isopen, reopens>>
 
-\* close: the API contract (snapshots and iterators released) and no background work pending
+\* close: the API contract (snapshots and iterators released).  Drop waits for the running
+\* background task only: a rotated memtable may still be unflushed (its log is replayed at the next
+\* open) and a compaction may have been abandoned (its outputs are orphans for the next deletion
+\* pass).
 Close ==
-  /\ isopen /\ ~immOn /\ ~comp.on /\ ~gcDue /\ pins = {} /\ snaps = <<>> /\ pending = {}
+  /\ isopen /\ pins = {} /\ snaps = <<>>
   /\ reopens < MaxReopens
   /\ isopen' = FALSE
   /\ UNCHANGED <<coreVars, man, walEnts, reopens>>
 
 SnapshotEdit(v, lw, nx, ls) ==
   [add |-> UNION {{[lvl |-> l,
-                    rec |-> IF Bug_SnapshotSwapsBounds THEN [no |-> r.no, lo |-> r.hi, hi |-> r.lo]
+                    rec |-> IF Bug_SnapshotSwapsBounds THEN [r EXCEPT !.lo = r.hi, !.hi = r.lo]
                             ELSE r] : r \in SeqToSet(v[l])} : l \in Levels},
    del |-> {}, logWal |-> lw, next |-> nx, last |-> ls]
 
-Open(reuse) ==
+\* DB::open.  `reuse` = DbOptions::reuse_log_files; `mreuse` = the manifest is small enough to be
+\* appended to (VersionSet::maybe_reuse_manifest; only with `reuse`).
+\*  - every log >= the recorded WAL number is replayed into ITS OWN memtable, oldest first;
+\*    a non-empty memtable of an older log becomes a level-0 table;
+\*  - the last log is appended to again (with its memtable) if `reuse`; otherwise its entries
+\*    become a level-0 table too and a new log is started;
+\*  - the file-number counter is the manifest's, pushed past every replayed log's number;
+\*  - the last sequence is the larger of the manifest's and the logs';
+\*  - a manifest that is not reused is replaced by one starting with a SNAPSHOT of the version.
+Open(reuse, mreuse) ==
   /\ ~isopen
   /\ LET r == Recovered
-         logs == {w \in DOMAIN walEnts : w >= r.logWal}
-         replayed == IF Bug_ReplaySkipsOlderLogs /\ logs # {} THEN walEnts[SetMax(logs)]
-                     ELSE UNION {walEnts[w] : w \in logs}
+         allLogs == {w \in DOMAIN walEnts : w >= r.logWal}
+         logs == IF Bug_ReplaySkipsOlderLogs /\ allLogs # {} THEN {SetMax(allLogs)} ELSE allLogs
+         lastWal == IF logs = {} THEN 0 ELSE SetMax(logs)
+         walReused == reuse /\ lastWal # 0
+         toTables == {w \in logs : walEnts[w] # {} /\ (w # lastWal \/ ~walReused)}
+         order == SetToSortSeq(toTables, LAMBDA a, b : a < b)
+         replayed == UNION {walEnts[w] : w \in logs}
          lastSeq == IF Bug_SeqFromManifestOnly THEN r.last
                     ELSE IF SeqMax(replayed) > r.last THEN SeqMax(replayed) ELSE r.last
-         counter == IF Bug_CounterNotRestored THEN r.next
-                    ELSE SetMax({r.next} \cup logs)
-         lastWal == IF logs = {} THEN 0 ELSE SetMax(logs) IN
+         counter == IF Bug_CounterNotRestored THEN r.next ELSE SetMax({r.next} \cup allLogs)
+         nt == Len(order)
+         newRecs == [i \in 1..nt |-> MkRec(counter + i, walEnts[order[i]])]
+         wno == IF walReused THEN lastWal ELSE counter + nt + 1
+         nxt == IF walReused THEN counter + nt ELSE counter + nt + 1
+         v2 == [r.ver EXCEPT ![0] = @ \o newRecs]
+         changed == nt > 0 \/ ~walReused \/ walEnts[lastWal] = {}
+         edit == [add |-> {[lvl |-> 0, rec |-> newRecs[i]] : i \in 1..nt}, del |-> {},
+                  logWal |-> wno, next |-> nxt, last |-> lastSeq] IN
      /\ seq' = lastSeq
-     /\ IF reuse /\ lastWal # 0
-        THEN \* manifest, last WAL and its memtable are reused
-             /\ mem' = replayed /\ cur' = r.ver /\ curWal' = lastWal /\ logWal' = r.logWal
-             /\ nextFile' = counter /\ files' = files /\ disk' = disk
-             /\ man' = man /\ walEnts' = walEnts
-        ELSE \* replayed entries go to a level-0 table, new WAL, new manifest with a snapshot
-             LET tno == counter + 1
-                 wno == IF replayed = {} THEN counter + 1 ELSE counter + 2
-                 v2 == IF replayed = {} THEN r.ver
-                       ELSE [r.ver EXCEPT ![0] = Append(@, MkRec(tno, replayed))] IN
-             /\ mem' = {} /\ cur' = v2 /\ curWal' = wno /\ logWal' = wno
-             /\ nextFile' = wno
-             /\ files' = IF replayed = {} THEN files ELSE (tno :> replayed) @@ files
-             /\ disk' = (disk \cup {<<"wal", wno>>})
-                        \cup (IF replayed = {} THEN {} ELSE {<<"table", tno>>})
-             /\ man' = << SnapshotEdit(v2, wno, wno, lastSeq) >>
-             /\ walEnts' = (wno :> {}) @@ walEnts
+     /\ mem' = IF walReused THEN walEnts[lastWal] ELSE {}
+     /\ cur' = v2 /\ curWal' = wno /\ nextFile' = nxt
+     /\ files' = [i \in {counter + j : j \in 1..nt} |-> walEnts[order[i - counter]]] @@ files
+     /\ disk' = (disk \cup {<<"table", counter + j>> : j \in 1..nt}) \cup {<<"wal", wno>>}
+     /\ walEnts' = IF walReused THEN walEnts ELSE (wno :> {}) @@ walEnts
+     /\ IF ~(reuse /\ mreuse)
+        THEN man' = << SnapshotEdit(v2, wno, nxt, lastSeq) >> /\ logWal' = wno
+        ELSE IF changed THEN man' = Append(man, edit) /\ logWal' = wno
+        ELSE man' = man /\ logWal' = r.logWal
   /\ imm' = {} /\ immOn' = FALSE /\ immDone' = FALSE /\ immWal' = 0
   /\ pins' = {} /\ snaps' = <<>> /\ pending' = {} /\ comp' = NoComp /\ nextPin' = 1
   /\ gcDue' = TRUE          \* remove_obsolete_files runs at the end of open
@@ -141,7 +155,7 @@ RNext ==
   \/ isopen /\ (\E n \in 1..FileCap : CompactEmit(n)) /\ Same
   \/ isopen /\ CompactInstall /\ Logged /\ UNCHANGED <<walEnts, isopen, reopens>>
   \/ Close
-  \/ \E reuse \in BOOLEAN : Open(reuse)
+  \/ \E reuse \in BOOLEAN : \E mreuse \in {b \in BOOLEAN : b => reuse} : Open(reuse, mreuse)
 
 RSpec == RInit /\ [][RNext]_rvars
 
@@ -152,5 +166,12 @@ RSeqSane == isopen => SeqSane
 \* what is persisted always describes the current version (as sets of file numbers per level)
 ManifestMatches ==
   isopen => \A l \in Levels : {f.no : f \in SeqToSet(Recovered.ver[l])} = {f.no : f \in SeqToSet(cur[l])}
+\* a number handed out is larger than every number in use
+\* (orphans of an abandoned compaction may carry larger numbers: they are overwritten or removed
+\* by the deletion pass at the end of open)
+NumbersFresh ==
+  isopen => /\ \A l \in Levels : \A f \in LvlSet(cur, l) : f.no <= nextFile
+            /\ \A n \in pending : n <= nextFile
+            /\ \A w \in DOMAIN walEnts : w >= logWal => w <= nextFile
 RBound == nextFile <= MaxFiles
 =============================================================================
